@@ -171,12 +171,21 @@ where
     F: FnOnce(&mut Execution) -> R,
 {
     let (ret, switch) = execution(|execution| {
+        let unwinding = std::thread::panicking();
+
+        if unwinding {
+            // The thread runs a destructor: whatever it was waiting for when
+            // the panic was raised no longer applies.
+            execution.threads.active_mut().set_runnable();
+        }
+
         let ret = f(execution);
 
         // A thread that unwinds from a panic keeps running: the execution has
         // failed, and switching away from a destructor would leave the unwind
-        // suspended for good.
-        if std::thread::panicking() {
+        // suspended for good. Only an operation that has to wait for another
+        // thread (a lock that is held) hands over.
+        if unwinding && execution.threads.active().is_runnable() {
             return (ret, false);
         }
 
